@@ -218,6 +218,41 @@ VCLAUSE(methods_1d, 60, 12000, 250000, "limits reversed, or an explicit method_p
 	VCLOSE(c, nm, v, (double) exact, rel * (double) F.abs_integral, m << " (parameter " << par << ") on " << F.desc);
 }
 
+// The accuracy classes are relative: an interval of any absolute size, (a,b) -> (a,b)*2^k with the integrand compressed and raised to keep the
+// integral, is the same request. Only exactly equal limits give zero - limits 1e-20 apart are distinct. The scale is a power of two so that
+// the integrand is evaluated at exactly the scaled abscissae; the oracle is the analytic integral and the method's stated accuracy, asserted
+// wherever the library meets that accuracy on the unscaled request (elsewhere the case belongs to methods_1d / finding K3 and is only counted).
+VCLAUSE(scaled_intervals, 60, 4000, 80000, "the interval is shorter than 1e-15 or longer than 1e15 in absolute terms, or the limits are reversed")
+{
+	Src& s = c.s;
+	int mi = s.pick({3, 3, 2, 3, 2, 1});
+	std::string m = kMethods[mi];
+	Fn1 F = gen_fn(s, mi == 5, -1, m == "Gauss-Kronrod");
+	bool rev = s.coin();
+	int k = (int) s.range(10, 220) * (s.chance(0.75) ? -1 : 1);
+	double sc = std::ldexp(1.0, k);
+	double A0 = rev ? F.b : F.a, B0 = rev ? F.a : F.b, A = A0 * sc, B = B0 * sc;
+	long double exact = F.integral(A0, B0);
+	if(std::fabs(B - A) < 1e-15 || std::fabs(B - A) > 1e15 || rev)
+		c.nt();
+	c.cls(m.c_str());
+	c.cls(k < 0 ? "interval_scaled_down" : "interval_scaled_up");
+	std::function<double(double)> f0 = F.f;
+	std::function<double(double)> g	 = [=](double t) { return f0(t / sc) / sc; };
+	VLOG(c, m << " on [" << A << "," << B << "] = 2^" << k << " * [" << A0 << "," << B0 << "] of g(t) = f(t/2^k)/2^k, f = " << F.desc);
+	double v0 = 0, v = 0;
+	VMUST_RETURN("Integrate(" << m << ") unscaled", v0 = libphysica::Integrate(f0, A0, B0, m, 0));
+	double rel = m == "Trapezoidal" ? 1e-5 : 1e-9;
+	if(!(std::fabs((long double) v0 - exact) <= rel * (double) F.abs_integral))
+	{
+		c.cls("unscaled_request_outside_accuracy_class");
+		return;
+	}
+	VMUST_RETURN("Integrate(" << m << ") scaled", v = libphysica::Integrate(g, A, B, m, 0));
+	VCLOSE(c, "scaled_interval_accuracy", v, (double) exact, 2 * rel * (double) F.abs_integral,
+		   m << " on the interval scaled by 2^" << k << " (length " << std::fabs(B - A) << "); the unscaled request returned " << v0);
+}
+
 // separable integrands with distinct, pairwise disjoint limit ranges per axis: a swapped argument or limit is visible at once
 VCLAUSE(nested_2d_3d, 60, 3000, 60000, "at least one axis has reversed limits, or the method is not the default")
 {
